@@ -250,7 +250,12 @@ func (s0 *Schema) WellFormed() []RuleViolation {
 		}
 	}
 	checkDirs := func(where, loc string, ds []DirUse) {
+		seenUse := map[string]bool{}
 		for _, du := range ds {
+			if seenUse[du.Name] {
+				add("R3", du.Name, "directive @%s repeated on %s", du.Name, where)
+			}
+			seenUse[du.Name] = true
 			var locs []string
 			var argT func(string) (*T, bool, bool) // type, hasDefault, found
 			if bd, ok := builtinDirs[du.Name]; ok {
